@@ -39,6 +39,7 @@ const (
 	EIpcpRecv   = 11 // params [state; last_id]
 	EIp6cpRecv  = 12 // params [state; last_id]
 	EAuthRecv   = 13 // params [proto; chap_id]
+	ECreateSeq  = 14 // params [mode (0 CreateSession, 1 PADR through handleDiscovery); n; zero_used; next; free ids...]
 	ED6Message  = 20
 	ED6Options  = 21
 	ED6IANA     = 22
@@ -61,7 +62,7 @@ var entryNames = map[int]string{
 	EDiscovery: "pppoe.Server.handleDiscovery", ESession: "pppoe.Server.handleSession",
 	ECreate: "pppoe.SessionManager.CreateSession", ELcpRecv: "pppoe.LCPStateMachine.ReceivePacket",
 	EIpcpRecv: "pppoe.IPCPStateMachine.ReceivePacket", EIp6cpRecv: "pppoe.IPV6CPStateMachine.ReceivePacket",
-	EAuthRecv: "pppoe.Authenticator.ReceivePacket", ED6Message: "dhcpv6.ParseMessage", ED6Options: "dhcpv6.ParseOptions",
+	EAuthRecv: "pppoe.Authenticator.ReceivePacket", ECreateSeq: "pppoe.SessionManager.CreateSession(sequence)", ED6Message: "dhcpv6.ParseMessage", ED6Options: "dhcpv6.ParseOptions",
 	ED6IANA: "dhcpv6.ParseIANA", ED6IAPD: "dhcpv6.ParseIAPD", ED6IAAddr: "dhcpv6.ParseIAAddress",
 	ED6IAPrefix: "dhcpv6.ParseIAPrefix", ED6DUID: "dhcpv6.ParseDUID", ED6Handle: "dhcpv6.Server.handleMessage",
 	EOpt82: "dhcp.parseOption82", EVendor: "ztp.parseVendorOptions", ESse: "ha.HASyncer.connectToStream",
@@ -304,6 +305,57 @@ func runCreate(p []uint64) Out {
 			return errOut()
 		}
 		return ok([]uint64{uint64(s.ID), uint64(m.VerifC09NextID())})
+	})
+}
+
+// runCreateSeq fills the session table to a boundary with the hook, then issues n more
+// CreateSession calls (mode 0) or n ordinary PADRs through handleDiscovery (mode 1) under the time
+// limit. One row per attempt: [1; id issued; cursor afterwards] or [0] (refused: table full).
+func runCreateSeq(p []uint64) Out {
+	if len(p) < 4 {
+		return Out{Class: CErr}
+	}
+	mode, n, q := p[0], int(p[1]), p[2:]
+	var m *pppoe.SessionManager
+	var env *srvEnv
+	if mode == 1 {
+		env = newSrv(0, false)
+		m = env.srv.VerifC09Sessions()
+	} else {
+		m = pppoe.NewSessionManager()
+	}
+	free := make([]uint16, 0, len(q)-2)
+	for _, f := range q[2:] {
+		free = append(free, uint16(f))
+	}
+	m.VerifC09Fill(1, 65535, free, uint16(q[1]))
+	if q[0] != 0 {
+		m.VerifC09Fill(0, 0, nil, uint16(q[1]))
+	}
+	return guarded(3*time.Second, func() Out {
+		var rows [][]uint64
+		for i := 0; i < n; i++ {
+			mac := net.HardwareAddr{0x02, 0xaa, 0xbb, 0xcc, 0xee, byte(i + 1)}
+			if mode == 0 {
+				s, err := m.CreateSession(mac, serverMAC)
+				if err != nil {
+					rows = append(rows, []uint64{0})
+				} else {
+					rows = append(rows, []uint64{1, uint64(s.ID), uint64(m.VerifC09NextID())})
+				}
+				continue
+			}
+			before := env.sock.Count()
+			env.srv.VerifC09HandleDiscovery(mac, validPADR())
+			fr := env.sock.Frames()
+			if len(fr) > before && len(fr[before]) >= 18 && fr[before][15] == pppoe.CodePADS {
+				waitFrames(env.sock, before+2) // the asynchronous LCP Configure-Request
+				rows = append(rows, []uint64{1, uint64(binary.BigEndian.Uint16(fr[before][16:18])), uint64(m.VerifC09NextID())})
+			} else {
+				rows = append(rows, []uint64{0})
+			}
+		}
+		return ok(rows...)
 	})
 }
 
@@ -716,6 +768,8 @@ func call1(e int, p []uint64, d, tail []byte) Out {
 		return runDiscovery(p, d, tail, true)
 	case ECreate:
 		return runCreate(p)
+	case ECreateSeq:
+		return runCreateSeq(p)
 	case ELcpRecv, EIpcpRecv, EIp6cpRecv:
 		return runAutomaton(e, p, d)
 	case EAuthRecv:
